@@ -183,7 +183,7 @@ def build(spec):
 
 def random_spec(rng, family=None, template_domain="C15"):
     """Draw an EOS spec.  Unit factor s log-uniform over five decades."""
-    fam = family or rng.choice(["bag", "template", "twostep"], p=[0.2, 0.5, 0.3])
+    fam = family or rng.choice(["bag", "template", "twostep"], p=[0.15, 0.45, 0.4])
     s = float(10 ** rng.uniform(-2.5, 2.5))
     if fam == "bag":
         psi = float(rng.uniform(0.5, 0.99))
@@ -202,7 +202,8 @@ def random_spec(rng, family=None, template_domain="C15"):
     aL = float(rng.uniform(0.12, 0.4))
     aH = float(rng.uniform(0.3, 0.9)) * aL
     m2 = float(rng.uniform(0.25, 0.6))
-    Tn = float(rng.uniform(0.6, 0.99))
+    # strong supercooling included: the sound speeds then differ visibly between T_n, T+, T-
+    Tn = float(rng.uniform(0.45, 0.99))
     return {"family": "twostep", "aL": aL, "aH": aH, "m2": m2, "Tn": Tn, "s": s}
 
 
